@@ -152,8 +152,14 @@ func c11History(k *fw.K, quick bool) {
 		c *optimizers.SGDConfig
 		v float64
 	}{{"default", nil, 0.01}, {"1e-3", &optimizers.SGDConfig{LearningRate: 1e-3}, 1e-3}, {"0.05", &optimizers.SGDConfig{LearningRate: 0.05}, 0.05},
-		{"0.5", &optimizers.SGDConfig{LearningRate: 0.5}, 0.5}, {"0", &optimizers.SGDConfig{LearningRate: 0}, 0}, {"-0.05", &optimizers.SGDConfig{LearningRate: -0.05}, -0.05}}
+		{"0.5", &optimizers.SGDConfig{LearningRate: 0.5}, 0.5}, {"0", &optimizers.SGDConfig{LearningRate: 0}, 0}, {"-0.05", &optimizers.SGDConfig{LearningRate: -0.05}, -0.05},
+		{"1.5", &optimizers.SGDConfig{LearningRate: 1.5}, 1.5}, {"4", &optimizers.SGDConfig{LearningRate: 4}, 4}}
 	l := lrs[r.Intn(len(lrs))]
+	if l.v > 1 && (m.Act == "softmax" || m.Act == "sigmoid") {
+		// rates above 1 (legal, and the step is lr * gradient all the same) drive the weights far out within a few steps: they are used with
+		// the activations that are specified for every finite input
+		m.Act, m.Loss = []string{"none", "tanh", "relu"}[r.Intn(3)], "mse"
+	}
 	m.LR, m.conf, m.lr = l.n, l.c, l.v
 	m.Steps = 2 + r.Intn(11)
 	if quick {
@@ -225,7 +231,7 @@ func c11History(k *fw.K, quick bool) {
 	}
 	if m.Variant == "confident-wrong" {
 		for i := range w0.Data { // the features of a sample sum to 1 (see newBatch): z = w + b = -26.5..-19.5, the label is 1
-			w0.Data[i], b0.Data[i] = -(20+6*r.Float64()), 0.5*r.Float64()
+			w0.Data[i], b0.Data[i] = -(20 + 6*r.Float64()), 0.5*r.Float64()
 		}
 	}
 	trace := []map[string]any{}
